@@ -393,6 +393,240 @@ def check_gen(ix, rep):
     rep.floor("generator/matrix pairs proved", n_eq, 21)
 
 
+# =============================================================================================
+# R-C01-pure
+
+PURE_REPS = {"matrix", "sparse_matrix", "eigvals", "diagonalizing_gates", "decomposition", "generator", "terms"}
+PURE_METHODS = PURE_REPS | {"compute_" + r for r in PURE_REPS}
+# calls that may hand back their argument itself (no copy) or a view sharing its memory
+PASS_THROUGH_FUNCS = {"asarray", "asanyarray", "cast_like", "convert_like", "cast", "real", "imag", "conj", "conjugate", "transpose",
+                      "reshape", "ravel", "squeeze", "atleast_1d", "atleast_2d", "expand_dims", "moveaxis", "swapaxes", "diagonal",
+                      "csr_matrix", "csc_matrix", "coo_matrix", "csr_array", "unwrap", "stop_gradient"}  # fmt: skip
+PASS_THROUGH_METHODS = {"asformat", "tocsr", "tocsc", "tocoo", "reshape", "ravel", "squeeze", "transpose", "view", "conj", "conjugate",
+                        "swapaxes", "diagonal", "astype"}  # fmt: skip
+PASS_THROUGH_ATTRS = {"T", "real", "imag", "data", "indices", "indptr", "flat", "mT"}
+INPLACE_METHODS = {"sort", "resize", "setdiag", "fill", "itemset", "put", "partition", "sort_indices", "sum_duplicates", "setfield",
+                   "byteswap", "__setitem__", "__imul__", "__iadd__", "__isub__"}  # fmt: skip
+INPLACE_FUNCS = {"copyto", "fill_diagonal", "put", "place", "putmask", "put_along_axis"}  # first argument is written
+
+
+def _root(node):
+    while isinstance(node, (ast.Attribute, ast.Subscript)):
+        node = node.value
+    return node
+
+
+def sub_rep_call(f: FuncInfo, node):
+    """Is ``node`` a representation call on a sub-object (not on self / super() / a module)?  -> text or None"""
+    if not isinstance(node, ast.Call):
+        return None
+    fn = node.func
+    if isinstance(fn, ast.Attribute) and fn.attr in PURE_METHODS:
+        recv = fn.value
+        if _is_self(recv) or (isinstance(recv, ast.Call) and norm(recv.func) == "super"):
+            return None
+        r = _root(recv)
+        if isinstance(r, ast.Name) and r.id != "self" and r.id in f.module.names:
+            # qp.matrix(sub) / qp.eigvals(sub): the functional form hands back the sub-object's own result
+            if node.args and fn.attr in PURE_REPS and not _is_self(node.args[0]) and f.module.names[r.id][0] in ("import", "from") \
+                    and isinstance(node.args[0], (ast.Name, ast.Attribute, ast.Subscript)):
+                return norm(node)[:60]
+            return None
+        if isinstance(r, ast.Call):
+            return None
+        return f"{norm(recv)}.{fn.attr}()"
+    return None
+
+
+class PureScan:
+    """flow-sensitive may-alias scan of one method: names that may still refer to (a view of) a value a
+    sub-object handed out; every in-place operation on such a name is a sink."""
+
+    def __init__(self, f: FuncInfo):
+        self.f = f
+        self.sources = []  # (text, node)
+        self.sinks = []  # (node, what, origin text)
+
+    def origin(self, node, env):
+        """origin text if the expression may be (a view of) a sub-object's value, else None"""
+        if isinstance(node, ast.Name):
+            return env.get(node.id)
+        t = sub_rep_call(self.f, node)
+        if t is not None:
+            self.sources.append((t, node))
+            return t
+        if isinstance(node, ast.Attribute) and node.attr in PASS_THROUGH_ATTRS:
+            return self.origin(node.value, env)
+        if isinstance(node, ast.Subscript):
+            return self.origin(node.value, env)  # element / slice view of a tainted container
+        if isinstance(node, ast.Call):
+            fn = node.func
+            if isinstance(fn, ast.Attribute) and fn.attr in PASS_THROUGH_METHODS:
+                o = self.origin(fn.value, env)
+                if o:
+                    return o
+            last = fn.attr if isinstance(fn, ast.Attribute) else (fn.id if isinstance(fn, ast.Name) else None)
+            if last in PASS_THROUGH_FUNCS and node.args:
+                return self.origin(node.args[0], env)
+            return None
+        if isinstance(node, ast.IfExp):
+            return self.origin(node.body, env) or self.origin(node.orelse, env)
+        if isinstance(node, (ast.List, ast.Tuple)):
+            for e in node.elts:
+                o = self.origin(e.value if isinstance(e, ast.Starred) else e, env)
+                if o:
+                    return o
+            return None
+        if isinstance(node, (ast.ListComp, ast.GeneratorExp)):
+            sub = dict(env)
+            for g in node.generators:
+                o = self.origin(g.iter, sub)
+                for nm in ast.walk(g.target):
+                    if isinstance(nm, ast.Name):
+                        sub[nm.id] = o
+            return self.origin(node.elt, sub)
+        if isinstance(node, ast.NamedExpr):
+            return self.origin(node.value, env)
+        return None
+
+    def visit_expr(self, node, env):
+        """sinks inside an expression: in-place method calls, out=, numpy writers; also registers sources"""
+        for n in ast.walk(node):
+            if not isinstance(n, ast.Call):
+                continue
+            sub_rep_call(self.f, n) and self.sources.append((sub_rep_call(self.f, n), n))
+            fn = n.func
+            if isinstance(fn, ast.Attribute) and fn.attr in INPLACE_METHODS:
+                o = self.origin(fn.value, env)
+                if o:
+                    self.sinks.append((n, f".{fn.attr}() modifies its receiver in place", o))
+            for kw in n.keywords:
+                if kw.arg == "out":
+                    o = self.origin(kw.value, env)
+                    if o:
+                        self.sinks.append((n, "out= writes into it", o))
+            last = fn.attr if isinstance(fn, ast.Attribute) else (fn.id if isinstance(fn, ast.Name) else None)
+            if last in INPLACE_FUNCS and n.args and not (isinstance(fn, ast.Attribute) and self.origin(fn.value, env)):
+                o = self.origin(n.args[0], env)
+                if o:
+                    self.sinks.append((n, f"{last}() writes into its first argument", o))
+
+    def bind(self, target, o, env):
+        if isinstance(target, ast.Name):
+            if o:
+                env[target.id] = o
+            else:
+                env.pop(target.id, None)
+        elif isinstance(target, (ast.Tuple, ast.List)):
+            for e in target.elts:
+                self.bind(e.value if isinstance(e, ast.Starred) else e, o, env)
+
+    def run(self, stmts, env):
+        for st in stmts:
+            if isinstance(st, (ast.FunctionDef, ast.AsyncFunctionDef, ast.ClassDef)):
+                continue
+            if isinstance(st, ast.Assign):
+                self.visit_expr(st.value, env)
+                o = self.origin(st.value, env)
+                for t in st.targets:
+                    if isinstance(t, (ast.Subscript, ast.Attribute)):
+                        to = self.origin(t.value, env)
+                        if to:
+                            kind = "subscript store" if isinstance(t, ast.Subscript) else f"attribute store .{t.attr} ="
+                            self.sinks.append((st, f"{kind} writes into it", to))
+                    else:
+                        self.bind(t, o, env)
+                continue
+            if isinstance(st, ast.AnnAssign):
+                if st.value is not None:
+                    self.visit_expr(st.value, env)
+                    self.bind(st.target, self.origin(st.value, env), env)
+                continue
+            if isinstance(st, ast.AugAssign):
+                self.visit_expr(st.value, env)
+                t = st.target
+                to = self.origin(t, env) if isinstance(t, ast.Name) else self.origin(t.value, env)
+                if to:
+                    self.sinks.append((st, f"augmented assignment `{norm(t)} {_AUG.get(type(st.op), '?')}= ...` operates in place", to))
+                continue
+            if isinstance(st, ast.If):
+                self.visit_expr(st.test, env)
+                e1, e2 = dict(env), dict(env)
+                self.run(st.body, e1)
+                self.run(st.orelse, e2)
+                env.clear()
+                env.update({**e2, **e1})  # may-alias: union
+                continue
+            if isinstance(st, (ast.For, ast.AsyncFor)):
+                self.visit_expr(st.iter, env)
+                o = self.origin(st.iter, env)
+                for _ in range(2):
+                    self.bind(st.target, o, env)
+                    self.run(st.body, env)
+                self.run(st.orelse, env)
+                continue
+            if isinstance(st, ast.While):
+                self.visit_expr(st.test, env)
+                for _ in range(2):
+                    self.run(st.body, env)
+                self.run(st.orelse, env)
+                continue
+            if isinstance(st, (ast.With, ast.AsyncWith)):
+                for it in st.items:
+                    self.visit_expr(it.context_expr, env)
+                self.run(st.body, env)
+                continue
+            if isinstance(st, ast.Try):
+                self.run(st.body, env)
+                for h in st.handlers:
+                    self.run(h.body, env)
+                self.run(st.orelse, env)
+                self.run(st.finalbody, env)
+                continue
+            for ch in ast.iter_child_nodes(st):
+                if isinstance(ch, ast.expr):
+                    self.visit_expr(ch, env)
+                    # a bare expression can still create a source (counted by visit_expr)
+        return env
+
+
+_AUG = {ast.Add: "+", ast.Sub: "-", ast.Mult: "*", ast.MatMult: "@", ast.Div: "/", ast.Pow: "**", ast.BitOr: "|", ast.BitAnd: "&",
+        ast.FloorDiv: "//", ast.Mod: "%", ast.BitXor: "^", ast.LShift: "<<", ast.RShift: ">>"}  # fmt: skip
+
+
+def check_pure(ix, rep):
+    rule = "R-C01-pure"
+    n_methods = n_sources = 0
+    for c in ix.classes:
+        if not T.is_operator_class(c) or c.fq in T.BASE_STOP:
+            continue
+        for m in sorted(PURE_METHODS):
+            f = c.own_method(m)
+            if f is None:
+                continue
+            ps = PureScan(f)
+            ps.run(f.node.body, {})
+            srcs = {id(n): t for t, n in ps.sources}
+            if not srcs:
+                continue
+            n_methods += 1
+            n_sources += len(srcs)
+            rep.analysed(c.module.relpath, f"{c.name}.{m}")
+            seen = set()
+            for node, what, origin in ps.sinks:
+                if id(node) in seen:
+                    continue
+                seen.add(id(node))
+                rep.refuted(rule, c.module.relpath, f"{c.name}.{m}", node,
+                            f"{c.name}.{m} modifies in place a value handed out by a sub-object ({origin}): {what}. If the sub-object returns "
+                            "stored data (SparseHamiltonian.sparse_matrix, Hermitian.matrix, QubitUnitary...) a later query of the sub-object "
+                            "describes a different linear map", line=getattr(node, "lineno", 0))
+            if not ps.sinks:
+                rep.proved(rule, f"{c.module.relpath}:{c.name}.{m}", f"{len(srcs)} sub-object representation call(s), no in-place operation on their values")
+    rep.floor("representation methods that query a sub-object's representation", n_methods, 53)
+    rep.floor("(method, sub-object representation call) sites", n_sources, 55)
+
+
 def check(ctx):
     ix = ctx.index
     rep = Report("C01", "a representation the operator reports as available is always produced and one it reports as unavailable raises "
@@ -408,9 +642,15 @@ def check(ctx):
     rep.rule("R-C01-gen", "for classes whose generator() returns Hamiltonian([c..],[Pauli words]), c*PauliWord, s_prod(c, I) or Projector(...) "
              "and whose one-parameter compute_matrix E4 resolves: single-term generator and exact support ⇒ support == spectrum; otherwise "
              "support ⊆ {Σ ±c_i}; a violated inclusion/equality with an exact support is refuted")
+    rep.rule("R-C01-pure", "in every representation method (matrix, sparse_matrix, eigvals, diagonalizing_gates, decomposition, generator, "
+             "terms and their compute_* variants) of every operator class, a value obtained from a sub-object's representation call "
+             "(<sub>.<rep>(...), <sub>.compute_<rep>(...), qp.<rep>(<sub>), local aliases, views and elements of it; flow-sensitive "
+             "may-alias over straight-line code, branches and loops) is never the target of an in-place operation: augmented assignment, "
+             "attribute/subscript store, in-place method (sort, resize, setdiag, fill, ...), out=, numpy writers")
     rep.assume("only explicit raise statements are followed (a callee raising the error is not seen); eigvals/pow have no capability flag")
     rep.assume("E4 assumptions (scalar parameters, non-zero unknown constants); Pauli words have spectrum {+1,-1}, Identity {+1}, Projector {0,1}")
     check_flag(ix, rep)
     check_symflag(ix, rep)
     check_gen(ix, rep)
+    check_pure(ix, rep)
     return rep
